@@ -232,6 +232,19 @@ def incoh_case(case, res):
                 break
         else:
             res.hits["sample_rate assigned between dedispersions"] += 1
+        # a user-defined subclass of the class is a class of its own: the type is kept
+        Sub = type("My" + cls, (getattr(pb, cls),), {})
+        try:
+            zs = Sub.like(z0)
+            o_s, o_p = pb.incoherent_dedispersion(zs, dmq, ref_freq=zs.max_freq), pb.incoherent_dedispersion(z0, dmq, ref_freq=z0.max_freq)
+            res.transitions += 2
+            if type(o_s) is not Sub or not np.array_equal(np.asarray(o_s.data), np.asarray(o_p.data)):
+                res.violation("incoherent|user subclass|type", f"input of type {Sub.__name__} (a subclass of {cls}) came back as "
+                              f"{type(o_s).__name__}", case, None)
+            else:
+                res.hits["user-defined subclass kept"] += 1
+        except Exception as e:
+            res.violation("incoherent|user subclass|raised", f"{type(e).__name__}: {e}", case, None)
         history.reuse_buffer(res, case, z0, [("incoherent_dedispersion", lambda q_: pb.incoherent_dedispersion(q_, dmq, ref_freq=q_.max_freq))],
                              "incoherent")
     # Dask-backed twin, channels chunked unequally: same samples, same metadata (the per-sample tracing above is the reference)
@@ -361,7 +374,7 @@ def main(argv=None):
         required_hits=["buffer overwritten between calls", "delay law triples", "infinite reference frequency", "DM in a non-default unit", "negative DM", "every returned sample traced",
                        "start_time moved", "no start time (relative alignment only)",
                        "channels realigned by different delays", "delays of both signs (reference inside band)",
-                       "all delays one sign (reference outside band)", "no valid instant in span: raise/empty accepted", "dask-backed input with unequal channel chunks", "DM object updated in place", "sample_rate assigned between dedispersions"],
+                       "all delays one sign (reference outside band)", "no valid instant in span: raise/empty accepted", "dask-backed input with unequal channel chunks", "DM object updated in place", "sample_rate assigned between dedispersions", "user-defined subclass kept"],
         assumptions=["K = 1/2.41e-4 s MHz^2 cm^3/pc exactly as stated; float evaluation budget 16 ulp of the larger term",
                      "completeness is weak by design: any sound window is accepted (the statement only forbids out-of-range sources)",
                      "labels whose exact delay is within 1e-9 of a half-integer are unconstrained"],
